@@ -2,6 +2,7 @@ package ast
 
 import (
 	"bytes"
+	"sort"
 
 	fail "github.com/textwire/textwire/v2/fail"
 	token "github.com/textwire/textwire/v2/token"
@@ -129,7 +130,17 @@ func (p *Program) HasUseStmt() bool {
 }
 
 func (p *Program) checkUndefinedInsert(inserts map[string]*InsertStmt) *fail.Error {
+	// check the inserts in alphabetical order, so that the reported
+	// insert does not depend on the map iteration order
+	names := make([]string, 0, len(inserts))
+
 	for name := range inserts {
+		names = append(names, name)
+	}
+
+	sort.Strings(names)
+
+	for _, name := range names {
 		if _, ok := p.Reserves[name]; ok {
 			continue
 		}
